@@ -65,8 +65,16 @@ Inductive resend_data := RsSn (p : packet) | RsAck (k : ack_kind) (mid : N).
 
 (* Transaction objects.  Each object has an identity (its key in gw_objs) because the
    store is keyed by message ID only and an object can outlive its slot. *)
+(* steps of the connect exchange (gateway/connect_transaction.go) *)
+Inductive cx_state := CxAuth | CxWillTopic | CxWillMsg | CxConnack.
+Definition cx_state_eqb (a b : cx_state) : bool :=
+  match a, b with
+  | CxAuth, CxAuth | CxWillTopic, CxWillTopic | CxWillMsg, CxWillMsg | CxConnack, CxConnack => true
+  | _, _ => false
+  end.
+
 Inductive txn :=
-| TxConnect (mq : mq_connect) (auth : bool)
+| TxConnect (mq : mq_connect) (st : cx_state)
 | TxClientPub1 (mid : N) (tid : N)
 | TxSubscribe (mid : N) (tid : N)
 | TxBrokerPub (mid : N) (qos : N) (st : bp_state) (data : resend_data)
@@ -108,7 +116,8 @@ Record gw_state := {
   gw_ended : bool;
   (* ghost history, never read by the step function *)
   gw_accepted : bool;                   (* broker accepted a CONNECT of this session *)
-  gw_handed_out : list (N * bytes)      (* topic IDs told to the client, with their names *)
+  gw_handed_out : list (N * bytes);     (* topic IDs told to the client, with their names *)
+  gw_auth_seen : option (bytes * bytes) (* credentials of the PLAIN AUTH of the current connect exchange *)
 }.
 
 Inductive gw_event :=
@@ -131,4 +140,5 @@ Definition init_state (cfg : gw_cfg) : gw_state := {|
   gw_no_more_tids := false; gw_buffer := [];
   gw_objs := ∅; gw_by_id := ∅; gw_connect := None; gw_next_obj := 0;
   gw_timers := []; gw_next_seq := 0; gw_now := 0; gw_last_sn := 0; gw_last_mq := 0;
-  gw_ending := None; gw_ended := false; gw_accepted := false; gw_handed_out := [] |}.
+  gw_ending := None; gw_ended := false; gw_accepted := false; gw_handed_out := [];
+  gw_auth_seen := None |}.
